@@ -6,6 +6,8 @@ open AnyTLS
 
 def socksOp (toks : List String) : String :=
   match toks with
+  | ["greet", hx, _] => socksOp ["greet", hx]
+  | ["req", hx, _] => socksOp ["req", hx]
   | ["greet", hx] =>
     match bytesOfHex hx with
     | some inp =>
